@@ -82,6 +82,7 @@ let () =
     | "#case" :: _ -> print_endline line; d := init_db (nat_of_int 2)
     | ["probe"; _] -> print_endline "probe ok"       (* implementation-only directed scenario (harness/cmd/table/probe.go) *)
     | ["regdup"] -> print_endline "err=duplicate"   (* rejected registration: no state change *)
+    | ["late"; _] -> print_endline "ok"   (* Abort / Commit on finished transaction handles: no effect *)
     | "at" :: _ -> print_endline "ok"   (* `at <point> <k>`: the next k ops run inside the following op at a hook point
                                             that precedes any of its effects: same as running them first *)
     | f ->
